@@ -109,6 +109,19 @@ Theorem C08_pareto_exact_unbounded : forall sk pops,
 Proof. exact pareto_exact_unbounded. Qed.
 Print Assumptions C08_pareto_exact_unbounded.
 
+(* ... and for a bounded front as long as no more distinct individuals were shown than it can
+   hold (the observable "below capacity" condition the oracle uses) *)
+Theorem C08_pareto_exact_below_capacity : forall sk cap pops,
+  shown_multi (concat pops) -> uid_injective (concat pops) ->
+  length (nodup Nat.eq_dec (map uid (concat pops))) <= cap ->
+  let seen := concat pops in
+  let a := pf_runs sk cap empty_arch pops in
+  (forall m, In m (items a) -> In m seen /\ forall s, In s seen -> f_dom (fitness s) (fitness m) = false) /\
+  (forall s, In s seen -> (forall s', In s' seen -> f_dom (fitness s') (fitness s) = false) ->
+             exists m, In m (items a) /\ f_eq (fitness m) (fitness s) = true).
+Proof. exact pareto_exact_few. Qed.
+Print Assumptions C08_pareto_exact_below_capacity.
+
 (* the (lexicographically) best member of the front never gets worse, whatever the capacity *)
 Theorem C08_pareto_best_never_worse : forall sk cap pops pop h rest,
   shown_multi (concat (pops ++ [pop])) ->
@@ -265,3 +278,12 @@ Example keeper_history_nontrivial :
   let tr := keeper_trace (keeper_kind false 1) 1 (keeper_init 1) ex_pops in
   map any_improved tr = [true; false; false; true] /\ map k_stag tr = [0; 1; 2; 0] /\ map k_gen tr = [1; 2; 3; 4].
 Proof. vm_compute. repeat split. Qed.
+
+Example below_capacity_satisfiable :
+  uid_injective (concat ex_front) /\ length (nodup Nat.eq_dec (map uid (concat ex_front))) <= 6.
+Proof.
+  split; [|vm_compute; repeat constructor].
+  intros s t Hs Ht E. simpl in Hs, Ht.
+  repeat (destruct Hs as [<-|Hs]; [repeat (destruct Ht as [<-|Ht]; [try reflexivity; discriminate E|]); destruct Ht|]).
+  destruct Hs.
+Qed.
